@@ -26,8 +26,8 @@ FlagIncr == 516
 ErrT     == {"ERROR", "CLIENT_ERROR", "SERVER_ERROR"}
 
 \* finding signatures (known_findings.json)
-C11Findings == {"F10", "F10-negbytes", "F10-resvflag", "F13"}
-C12Findings == {"F2", "F2-incr-get", "F2-negrev", "F2-unserved-del", "F10", "F10-resvflag"}
+C11Findings == {"F10", "F10-negbytes", "F10-resvflag", "F10-stale-recvtime", "F10-emptylong", "F13"}
+C12Findings == {"F2", "F2-incr-get", "F2-negrev", "F2-unserved-del", "F2-dupget", "F10", "F10-resvflag", "F10-emptylong"}
 AllFindings == C11Findings \cup C12Findings \cup {"F14"}
 
 Abs(x) == IF x < 0 THEN -x ELSE x
@@ -97,6 +97,7 @@ JunkAny   == [k |-> "junkany", adm |-> {}]     \* any number of any replies
 (*             isnum, num]                                                  *)
 (*   backlog: some stored value with n > 0 waits in a write buffer          *)
 (*   junk:    the previous command stole the first bytes of the next one    *)
+(*   fresh:   no line ending in CRLF was read on this connection yet        *)
 (*   cf:      [oomgate, bodyc, bodybig, bodymax, disk]                      *)
 (***************************************************************************)
 
@@ -132,13 +133,13 @@ KeyGet(kr, s) ==
   LET x == IF kr.name \in KeyNames THEN s.ref[kr.name] ELSE NoRef IN
   CASE kr.cls = "plain" ->
          (CASE x.st = "live"   -> KR("hit", It(kr.id, x.vid, x.flag))
-            [] x.st = "poison" -> KR("panic", NoIt)
+            [] x.st = "poison" -> KR("panic", It(kr.id, "*", 0))
             [] x.st = "wild"   -> KR("wild", It(kr.id, "*", 0))
             [] OTHER           -> KR("miss", NoIt))
     [] kr.cls \in {"meta", "meta2"} ->
          (CASE x.st = "live"   -> KR("hit", ItMeta(kr.id, x.ver, x.flag, x.len))
             [] x.st = "tomb"   -> KR("hit", ItMeta(kr.id, x.ver, x.flag, x.len))
-            [] x.st = "poison" -> KR("panic", NoIt)
+            [] x.st = "poison" -> KR("panic", It(kr.id, "*", 0))
             [] x.st = "wild"   -> KR("wild", It(kr.id, "*", 0))
             [] OTHER           -> KR("miss", NoIt))
     [] kr.cls = "hash" ->
@@ -149,6 +150,9 @@ KeyGet(kr, s) ==
     [] kr.cls \in {"dir17", "hashbad"}      -> KR("panic", NoIt)
     [] kr.cls \in {"hashlen", "q"}          -> KR("err", NoIt)
     [] OTHER -> KR("miss", NoIt)   \* unserved ctrl metabad qq collall hashmiss
+
+RECURSIVE SetToSeq0(_)
+SetToSeq0(S) == IF S = {} THEN <<>> ELSE LET x == CHOOSE y \in S : \A z \in S : y <= z IN <<x>> \o SetToSeq0(S \ {x})
 
 \* ---- get / gets ----------------------------------------------------------------------------
 GetOutcomes(c, s, F) ==
@@ -162,7 +166,15 @@ GetOutcomes(c, s, F) ==
       opts == {res[i].it : i \in {j \in 1..n : res[j].r \in {"opt", "wild"}}}
       wild == \E i \in 1..n : res[i].r = "wild"
       tokd(o) == [o EXCEPT !.tok = TRUE]
-      respbufs == [i \in 1..Cardinality({j \in 1..n : res[j].r = "hit" /\ K[j].cls = "plain"}) |-> Buf("get", 0, FALSE, "resp")]
+      phit == {j \in 1..n : res[j].r = "hit" /\ K[j].cls = "plain"}
+      respbufs == [i \in 1..Cardinality({K[j].id : j \in phit}) |-> Buf("get", 0, FALSE, "resp")]
+      \* GetMulti stores every fetched value under its key: a repeated key drops the earlier copy (F2-dupget)
+      dups == {j \in phit : \E i \in phit : i < j /\ K[i].id = K[j].id}
+      dupseq == SetToSeq0(dups)
+      dupbufs(fate) == [i \in 1..Len(dupseq) |->
+                          LET x == s.ref[K[dupseq[i]].name] IN
+                          Buf("get", GetCap(s, K[dupseq[i]].klen, x.len), GetInC(s, K[dupseq[i]].klen, x.len), fate)]
+      dupwild == \E j \in dups : MaybeCompressed(K[j].klen, s.ref[K[j].name].len)
   IN
   IF long THEN {tokd(Plain(<<One({PErr})>>, s))}
   ELSE IF pidx # {} THEN
@@ -171,13 +183,21 @@ GetOutcomes(c, s, F) ==
            \* values fetched by GetMulti before the panic are never released
            before == {j \in 1..(first - 1) : res[j].r = "hit" /\ K[j].cls = "plain"}
            lbufs == [i \in 1..Cardinality(before) |-> Buf("get", 0, FALSE, "leak")]
+           \* a value stored with the reserved compression bit: Decompress of bytes that are not compressed either
+           \* panics or fails and hands the raw bytes back, depending on the bytes; GetData is left unbalanced
+           poisoned == {res[i].it : i \in {j \in 1..n : res[j].r = "panic" /\ K[j].cls \notin {"dir17", "hashbad"}}}
        IN IF sig \in F
             THEN {[tokd(Plain(<<>>, s)) EXCEPT !.bufs = lbufs, !.sig = sig, !.wild = (before # {} \/ sig = "F10-resvflag")]}
+                 \cup (IF sig = "F10-resvflag"
+                         THEN {[tokd(Plain(<<One({PValues(hits, opts \cup poisoned, cas)})>>, s)) EXCEPT !.sig = sig, !.wild = TRUE]}
+                         ELSE {})
             ELSE {tokd(Plain(<<One({PErr, PValues({}, hits \cup opts, cas)})>>, s)),
                   tokd(Closing(<<Opt({PErr})>>, s))}
   ELSE IF n = 1 /\ res[1].r = "err" THEN {tokd(Plain(<<One({PErr})>>, s))}
   ELSE IF wild THEN {tokd(Plain(<<One({PErr, PValues(hits, opts, cas)})>>, s))}
-  ELSE {[tokd(Plain(<<One({PValues(hits, opts, cas)})>>, s)) EXCEPT !.bufs = respbufs]}
+  ELSE IF dups # {} /\ "F2-dupget" \in F
+       THEN {[tokd(Plain(<<One({PValues(hits, opts, cas)})>>, s)) EXCEPT !.bufs = respbufs \o dupbufs("leak"), !.sig = "F2-dupget", !.wild = dupwild]}
+  ELSE {[tokd(Plain(<<One({PValues(hits, opts, cas)})>>, s)) EXCEPT !.bufs = respbufs \o dupbufs("freed")]}
 
 \* ---- the body region after a refused / unparsable header ----------------------------------
 \* delivered bytes of the body region (0 when the command has no body)
@@ -254,7 +274,7 @@ StoreOutcomes(c, s, F, last) ==
                 THEN {with(Plain(nr({Pt("STORED")}),
                                  [s EXCEPT !.ref[kr.name] = [NoRef EXCEPT !.st = "tomb", !.ver = -(Abs(x.ver) + 1),
                                                                           !.flag = c.flag, !.len = n]]),
-                           sbuf("leak"), "F2-negrev")}
+                           <<Buf("set", n, FALSE, "leak")>>, "F2-negrev")}      \* the flush frees the memory, not the SetData entry
               ELSE IF x.st = "wild"
                 THEN {with(Plain(nr({Pt("STORED"), PErr}), s), sbuf("leak"), "F2-negrev"),
                       with(Closing(nr({PErr}), s), sbuf("leak"), "F2-negrev")}
@@ -268,6 +288,12 @@ StoreOutcomes(c, s, F, last) ==
          THEN {with(Plain(nr({Pt("STORED")}), [s EXCEPT !.ref[kr.name] = [NoRef EXCEPT !.st = "poison", !.ver = Abs(x.ver) + 1],
                                                          !.backlog = s.backlog \/ n > 0]), sbuf("wbuf"), "")}
          ELSE {with(Plain(nr({Pt("STORED"), Pt("NOT_STORED"), PErr}), [s EXCEPT !.ref[kr.name] = WildRef, !.backlog = TRUE]), sbuf("wbuf"), "")}
+  ELSE IF n = 0 /\ 24 + kr.klen > 256 /\ ~c.ccomp /\ "F10-emptylong" \in F THEN
+       \* an EMPTY value whose record is larger than 256 bytes (key > 232 bytes) goes to TryCompress, and
+       \* quicklz.CCompress takes &src[0] of the empty body: panic, recovered, no reply; the SetData entry and the
+       \* 400-byte compression buffer stay behind
+       {[with(Plain(<<>>, s), <<Buf("set", 0, FALSE, "leak"), Buf("calloc", 400, TRUE, "leak")>>, "F10-emptylong")
+           EXCEPT !.wild = ~(400 > s.cf.bodyc)]}
   ELSE
        LET rev    == IF c.nf = "exptime" /\ c.nc = "rev" THEN c.rev ELSE 0
            accept == rev = 0 \/ rev > Abs(x.ver) \/ x.st = "wild"
@@ -336,7 +362,8 @@ IncrOutcomes(c, s, F) ==
                 ELSE {[o EXCEPT !.bufs = <<cnt("wbuf"), gbuf("freed")>>]}
     [] x.st = "poison" ->
          IF "F10-resvflag" \in F
-           THEN {[tokd(Plain(<<>>, s)) EXCEPT !.bufs = <<cnt("leak")>>, !.sig = "F10-resvflag", !.wild = TRUE]}
+           THEN {[tokd(Plain(<<>>, s)) EXCEPT !.bufs = <<cnt("leak")>>, !.sig = "F10-resvflag", !.wild = TRUE],
+                 [tokd(Plain(nr({PNumAny}), s)) EXCEPT !.bufs = <<cnt("leak")>>, !.sig = "F10-resvflag", !.wild = TRUE]}
            ELSE {tokd(Plain(nr({PNumAny, PErr}), [s EXCEPT !.ref[kr.name] = WildRef])), tokd(Closing(<<Opt({PErr})>>, s))}
     [] OTHER -> \* wild
          {tokd(Plain(nr({PNumAny, PErr}), s))}
@@ -353,11 +380,15 @@ DecrOutcomes(c, s, F) ==
 
 \* ---- dispatcher ------------------------------------------------------------------------------------
 \* last: c is the final command of the script (the client's EOF follows)
-Outcomes(c, s, F, last) ==
+Outcomes0(c, s, F, last) ==
   IF s.junk THEN
        \* the previous command took this command's first two bytes: what is left is read as lines
        LET o == Plain(<<Junk>>, [s EXCEPT !.junk = FALSE]) IN {IF Cut(c) THEN Ending(o) ELSE o}
   ELSE IF c.got < c.hl THEN {Ending(Plain(<<>>, s))}        \* line cut short, then EOF: orderly close, no reply
+  ELSE IF c.fault = "lfonly" /\ s.fresh /\ "F10-stale-recvtime" \in F THEN
+       \* a line without CR is rejected BEFORE Request.ReceiveTime is set: on a fresh connection it is the zero
+       \* time, the reply is replaced by PROCESS_TIMEOUT, and that one is never written
+       LET o == HeaderError(c, s, {PErr}) IN {[o EXCEPT !.exp = Tail(o.exp), !.sig = "F10-stale-recvtime"]}
   ELSE IF c.verb \in StoreVerbs THEN StoreOutcomes(c, s, F, last)
   ELSE IF c.fault = "lfonly" \/ c.verb = "empty" THEN {Plain(<<One({PErr})>>, s)}
   ELSE
@@ -375,6 +406,11 @@ Outcomes(c, s, F, last) ==
     [] c.verb = "quit"      -> {Closing(<<>>, s)}
     [] c.verb = "optimize_stat" -> {Plain(<<One({Pt("EXT")})>>, s)}
     [] OTHER -> {Plain(<<One({PErr})>>, s)}        \* unknown verbs, garbage lines
+
+\* Request.ReceiveTime is set once a line ending in CRLF has been read
+Outcomes(c, s, F, last) ==
+  LET fr == s.fresh /\ ~s.junk /\ (c.fault = "lfonly" \/ c.got < c.hl) IN
+  {[o EXCEPT !.s.fresh = fr] : o \in Outcomes0(c, s, F, last)}
 
 \* does command c belong to the signature of finding f (used only to NAME a failure)?
 SigOf(c, s) ==
@@ -400,6 +436,7 @@ AddBufs(lk, bufs, i) ==
                                                         !.ac = @ + (IF b.inc THEN 1 ELSE 0), !.as = @ + (IF b.inc THEN b.n ELSE 0)]
                         [] b.kind = "cnt" -> [lk EXCEPT !.sc = @ + 1]
                         [] b.kind = "neg" -> [lk EXCEPT !.sc = @ - 1]
+                        [] b.kind = "calloc" -> [lk EXCEPT !.ac = @ + 1, !.as = @ + b.n]
                         [] OTHER          -> [lk EXCEPT !.gc = @ + 1, !.gs = @ + b.n,
                                                         !.ac = @ + (IF b.inc THEN 1 ELSE 0), !.as = @ + (IF b.inc THEN b.n ELSE 0)]
        IN AddBufs(l2, bufs, i + 1)
@@ -433,7 +470,8 @@ RunFrom(cfgs, cmds, i, upto, obs, F, relaxed) ==
   IF i > upto \/ cfgs = {} THEN cfgs
   ELSE RunFrom(UNION {StepCfg(cf, cmds[i], i = Len(cmds), obs, F, relaxed) : cf \in cfgs}, cmds, i + 1, upto, obs, F, relaxed)
 
-Start(w) == {[s |-> w.s, pos |-> 1, closed |-> FALSE, ended |-> FALSE, lk |-> w.lk]}
+\* every script runs on a connection of its own
+Start(w) == {[s |-> [w.s EXCEPT !.fresh = TRUE, !.junk = FALSE], pos |-> 1, closed |-> FALSE, ended |-> FALSE, lk |-> w.lk]}
 
 \* worlds [s, lk] reachable when the script's observation is accepted under F
 Accepted(w, cmds, obs, closed, F, relaxed) ==
@@ -491,7 +529,7 @@ VARIABLES conn,   \* [Conns -> [script, todo, stage, plan, base, out, tok, junk,
 
 mvars == <<conn, free, bufs, st, s0, nid>>
 
-NoPlan == Plain(<<>>, [ref |-> [k \in KeyNames |-> NoRef], backlog |-> FALSE, junk |-> FALSE,
+NoPlan == Plain(<<>>, [ref |-> [k \in KeyNames |-> NoRef], backlog |-> FALSE, junk |-> FALSE, fresh |-> TRUE,
                        cf |-> [oomgate |-> FALSE, bodyc |-> 0, bodybig |-> 0, bodymax |-> 0, disk |-> FALSE]])
 
 RECURSIVE SetToSeq(_)
@@ -534,12 +572,12 @@ MkBuf(id, c, b, owner) == [id |-> id, c |-> c, kind |-> b.kind, n |-> b.n, inc |
 Free(b) == [b EXCEPT !.owner = "freed", !.frees = @ + 1]
 
 ParserBufs(o) == SelectSeq(o.bufs, LAMBDA b : b.kind \in {"set", "cnt"})
-ReaderBufs(o) == SelectSeq(o.bufs, LAMBDA b : b.kind \in {"get", "neg"})
+ReaderBufs(o) == SelectSeq(o.bufs, LAMBDA b : b.kind \in {"get", "neg", "calloc"})
 
 Recv(c) ==
   /\ conn[c].stage = "idle" /\ conn[c].todo # <<>> /\ ~conn[c].closed
   /\ LET cmd == Head(conn[c].todo)
-         sin == [st EXCEPT !.junk = conn[c].junk] IN
+         sin == [st EXCEPT !.junk = conn[c].junk, !.fresh = conn[c].fresh] IN
      \E o \in Outcomes(cmd, sin, FAsIs, Len(conn[c].todo) = 1) :
        /\ o.tok => free > 0
        /\ free' = IF o.tok THEN free - 1 ELSE free
@@ -574,7 +612,7 @@ Proc(c) ==
         /\ nid' = nid + Len(rb)
         /\ st' = [st EXCEPT !.ref = [k \in KeyNames |-> IF o.s.ref[k] # conn[c].base.ref[k] THEN o.s.ref[k] ELSE st.ref[k]],
                             !.backlog = st.backlog \/ o.s.backlog]
-        /\ conn' = [conn EXCEPT ![c].stage = "processed", ![c].junk = o.s.junk]
+        /\ conn' = [conn EXCEPT ![c].stage = "processed", ![c].junk = o.s.junk, ![c].fresh = o.s.fresh]
         /\ UNCHANGED <<free, s0>>
 
 Respond(c) ==
@@ -606,15 +644,18 @@ Eof(c) ==
   /\ conn' = [conn EXCEPT ![c].stage = "idle", ![c].tok = FALSE, ![c].todo = <<>>, ![c].closed = TRUE]
   /\ UNCHANGED <<st, s0, nid>>
 
+\* (with the memory-shortage gate on, the model flushes only at the end: the reference run of C11_OneReply
+\* knows no flush, like the harness, where only Close flushes)
 Flush ==
   /\ \E b \in bufs : b.owner = "wbuf"
+  /\ st.cf.oomgate => \A c \in Conns : conn[c].stage = "idle" /\ (conn[c].todo = <<>> \/ conn[c].closed)
   /\ bufs' = {IF b.owner = "wbuf" THEN Free(b) ELSE b : b \in bufs}
   /\ st' = [st EXCEPT !.backlog = FALSE]
   /\ UNCHANGED <<conn, free, s0, nid>>
 
 MInit(scripts, init) ==
   /\ conn = [c \in Conns |-> [script |-> scripts[c], todo |-> scripts[c], stage |-> "idle", plan |-> NoPlan, base |-> init,
-                               out |-> <<>>, tok |-> FALSE, junk |-> FALSE, closed |-> FALSE, srvclosed |-> FALSE]]
+                               out |-> <<>>, tok |-> FALSE, junk |-> FALSE, fresh |-> TRUE, closed |-> FALSE, srvclosed |-> FALSE]]
   /\ free = MaxReq /\ bufs = {} /\ st = init /\ s0 = init /\ nid = 0
 
 \* every connection idle and everything flushed: the run is over (keeps deadlock checking meaningful:
